@@ -1211,12 +1211,8 @@ HCPendaccess(accrec_t *access_rec)
 
 done:
     if (ret_value == FAIL) {
-        if (access_rec != NULL) {
-            /* the access id is gone in any case: detach from the file as well */
-            if (!BADFREC(file_rec))
-                file_rec->attach--;
+        if (access_rec != NULL)
             HIrelease_accrec_node(access_rec);
-        }
     }
 
     return ret_value;
